@@ -58,6 +58,7 @@ type fragment struct {
 	Assumptions   []string          `json:"assumptions"`
 	Exhaustive    bool              `json:"exhaustive"`
 	SpaceSize     int               `json:"space_size,omitempty"`
+	HashCapHit    bool              `json:"hash_cap_hit"`
 	Failed        bool              `json:"failed"`
 	FailMsg       string            `json:"fail_msg,omitempty"`
 	WallS         float64           `json:"wall_s"`
@@ -100,7 +101,8 @@ func shard() (int, int) {
 	return s, n
 }
 
-const maxHashes = 3_000_000
+// per shard; beyond it distinct_nontrivial becomes a lower bound (the driver says so in the evidence)
+const maxHashes = 500_000
 
 func (s *state) record(caseJSON func() []byte, r Result) {
 	s.mu.Lock()
@@ -119,6 +121,9 @@ func (s *state) record(caseJSON func() []byte, r Result) {
 	var js []byte
 	if r.NonTrivial {
 		s.frag.NonTrivial++
+		if len(s.hashes) >= maxHashes {
+			s.frag.HashCapHit = true
+		}
 		if len(s.hashes) < maxHashes {
 			h := fnv.New64a()
 			if r.Key != "" {
